@@ -41,7 +41,10 @@ claimed = {
    text="Reference-generated game collections in the Lichess export layout are read through every chunk-size class and seeded read fragmentations (1-byte reads, short reads, shrink-then-grow, random); the iterator must yield exactly the generated games (tags, SAN, comments), equal the single-read result, and replay through pgn_to_bb to the reference final position. Truncated sources and ErrorKind::Interrupted are injected too but only reported (observational).", ref="5/C17", note="STREAM"),
  "C18": dict(cat="exploration", tech="seeded operation histories on the private HashTable (through a cfg-gated handle) vs. reference FIFO map; TT-capacity knob inside EngineSim searches",
    text="40k+ histories of put/get/clear/len over capacities 1..16 and tiny key universes (re-insertion of present and of evicted keys is the norm, unique values) compared after every operation with an insertion-ordered reference map: lookups, size <= capacity, FIFO victim, fill level. The EngineSim checks additionally run real searches with TT capacity 1..1024 (hashfull <= 1000 enforced, C08 exactness independent of capacity).", ref="5/C18", note="TABLE"),
+ "C19": dict(cat="exploration", tech="seeded fragmentation / keep-alives / pending gaps on a simulated HTTP body under the real surf client, line reassembly and serde decode (ApiSim)",
+   text="surf's HttpClient trait is the transport seam: a server model plays reference games (gameFull, gameState per move, chatLine, opponentGone) and event streams (gameStart, gameFinish, challenge*, every optional field independently present/absent, every enumerated key cycled, JSON escapes and non-ASCII text) and the body is released in planned fragments (inside UTF-8 sequences and escapes, between CR and LF) with keep-alive blank lines and Pending gaps; the real SurfWebClient::stream + BotApi streams must yield every item in order with every transmitted value, the move list element by element, replayable by the consumer logic, independent of the fragmentation.", ref="5/C19", note="API"),
 }
+API_NOTE = ("Trusted base: the harness' server model and JSON writer; document shapes from memory of the Lichess Bot API docs (offline), only fields/keys I am certain of are verdict-bearing. lichess_bot::GameThread is not executed; its consumer logic is re-applied to the decoded values. Separate crate /verif/sim_api (surf/http-client/curl stack).")
 STREAM_NOTE = ("Trusted base: reference model (legal games, canonical SAN), the harness PGN writer (Lichess export layout), FragReader. ASCII tag values/comments without quotes or braces. Only complete inputs carry a verdict.")
 TABLE_NOTE = ("Trusted base: a 30-line reference FIFO map. No schedule exists (the table is owned by the search thread alone); the simulated dimension is the operation history and the cache-size knob.")
 ENGINE_NOTE = ("Trusted base: lock-step scheduler (sim/src/sched.rs), reference chess model, reference UCI grammars (sim/src/uciref.rs). Assumes a protocol-conformant GUI, poll-interval knob >= 512 (keeps 'iteration 1 completes before the first poll' true as with the shipped 100000), and that all cross-thread effects go through the mpsc channel and the UciTx sink. engine_app/src/main.rs is mirrored, not executed; setoption is parsed but not dispatched (todo!() in Engine::accept).")
@@ -59,9 +62,9 @@ for i in ids:
             "thorough_cmd": f"./run check {i} --tier thorough",
             "evidence_file": f"/verif/evidence/{i}.json",
             "replay_cmd_template": "./run replay {path}",
-            "engine": "sim",
+            "engine": "sim_api" if i == "C19" else "sim",
             "level_claimed": {"category": c["cat"], "text": c["text"], "design_ref": "DESIGN.md section " + c["ref"]},
-            "level_note": {"ENGINE": ENGINE_NOTE, "LINE": LINE_NOTE, "STREAM": STREAM_NOTE, "TABLE": TABLE_NOTE}.get(c.get("note"), BOARD_NOTE),
+            "level_note": {"ENGINE": ENGINE_NOTE, "LINE": LINE_NOTE, "STREAM": STREAM_NOTE, "TABLE": TABLE_NOTE, "API": API_NOTE}.get(c.get("note"), BOARD_NOTE),
             "technique": c["tech"],
         })
 na = [{"property_id": i, "reason": NA.get(i, "check not built yet (work in progress in this session)")} for i in ids if i not in claimed]
@@ -76,7 +79,7 @@ m = {
    "source_commits": [l.split()[0] for l in hooks_commits],
    "add_only": True,
  },
- "engines": [{"name": "sim", "path": "/verif/sim", "serves_properties": sorted(claimed), "kind_free_text": "Rust binary: seeded deterministic simulators (BoardSim, EngineSim, StreamSim, TableSim/RepSim, LineSim) + independent reference chess model + plan minimiser/replayer"}],
+ "engines": [{"name": "sim_api", "path": "/verif/sim_api", "serves_properties": ["C19"], "kind_free_text": "Rust binary: ApiSim (simulated HTTP transport under the real surf client + lichess_api streams); driven by the sim binary's runner"}, {"name": "sim", "path": "/verif/sim", "serves_properties": sorted(claimed), "kind_free_text": "Rust binary: seeded deterministic simulators (BoardSim, EngineSim, StreamSim, TableSim/RepSim, LineSim) + independent reference chess model + plan minimiser/replayer"}],
  "checks": checks,
  "not_applicable": na,
  "notes": "exit 0 = held; exit 1 + 'VIOLATION property=<id> replay=<path>'; exit 2 = harness error. VERIF_SEED selects the base seed (default 20260102). Known findings: /verif/known_findings.jsonl.",
